@@ -121,6 +121,8 @@ func checkC11(c *Ctx, r *Report, tier string) {
 	r.Rule("C11.R5", "success only from the notification: a proposing function returns a nil error only on the arm that received from its own notification channel; the partition methods return nil only when the received outcome is nil", 3)
 	r.Rule("C11.R7", "a waiter is released only by its own outcome or its own deadline: a notification channel is closed only through the removal of one id, requested by the function that created that id", 2)
 	notificationChannelsClosedByOwnerOnly(c, r, "C11.R7")
+	r.Rule("C11.R8", "an unreachable owner is an error, not a hang: no dial option makes grpc.Dial (called without a context on the write path) wait for the connection", 1)
+	dialDoesNotBlock(c, r, "C11.R8")
 	r.Rule("C11.R6", "batch error map: every failed partition request maps each of its items to the error; results of all workers are merged", 3)
 	for _, k := range []string{"success-return", "outcome-tested", "nil-only-if-outcome-nil"} {
 		r.Need("C11.R5", k, "the proposing functions and their callers must be found")
@@ -388,7 +390,17 @@ func dimensionGuards(c *Ctx) map[*ssa.Function]bool {
 				}
 			}
 			if hasLen && hasDim {
-				ok = true
+				// a guard only if it cannot be bypassed: every nil return lies on the `lengths are equal` side
+				eqPol := b.Op == token.EQL
+				all := true
+				for _, rt := range returnsOf(f) {
+					if isNilConst(rt.Results[0]) && !guardedBy(rt.Block(), ifi, eqPol) {
+						all = false
+					}
+				}
+				if all {
+					ok = true
+				}
 			}
 		}
 		if ok {
@@ -409,16 +421,106 @@ func dimensionGuards(c *Ctx) map[*ssa.Function]bool {
 				if !isC || !out[cl.Call.StaticCallee()] || out[f] {
 					return
 				}
+				forwards := false
 				for _, rt := range returnsOf(f) {
 					if rt.Results[0] == ssa.Value(cl) {
-						out[f] = true
-						changed = true
+						forwards = true
 					}
 				}
+				if !forwards {
+					return
+				}
+				// a validator that checks item by item leaves its loop early only with an error: a return inside the body
+				// of the loop over the items whose value may be nil means the remaining items are not looked at
+				for _, body := range itemLoopBodies(f) {
+					if !body.Dominates(cl.Block()) {
+						continue
+					}
+					for _, rt := range returnsOf(f) {
+						if !body.Dominates(rt.Block()) {
+							continue
+						}
+						v := rt.Results[0]
+						if isNilConst(v) {
+							return
+						}
+						if t, pol := errTestOf(f, v); t == nil || !guardedBy(rt.Block(), t, pol) {
+							return
+						}
+					}
+				}
+				// a validator without a loop cannot be bypassed: every plain `return nil` comes after the guard call
+				if len(itemLoopBodies(f)) == 0 {
+					for _, rt := range returnsOf(f) {
+						if isNilConst(rt.Results[0]) && !instrDominates(cl, rt.Return) {
+							return
+						}
+					}
+				}
+				out[f] = true
+				changed = true
 			})
 		}
 	}
 	return out
+}
+
+// itemLoopBodies: entry blocks of the bodies of loops that run over a slice parameter of f (`for … range items`).
+func itemLoopBodies(f *ssa.Function) []*ssa.BasicBlock {
+	var out []*ssa.BasicBlock
+	for _, ifi := range allIfs(f) {
+		b, ok := ifi.Cond.(*ssa.BinOp)
+		if !ok || b.Op != token.LSS || !isLoopCounter(b.X) {
+			continue
+		}
+		cl, ok := b.Y.(*ssa.Call)
+		if !ok || !callID(&cl.Call).is("builtin", "", "len") {
+			continue
+		}
+		if _, isP := strip(cl.Call.Args[0]).(*ssa.Parameter); !isP {
+			continue
+		}
+		out = append(out, succOn(ifi, true))
+	}
+	return out
+}
+
+// inLoopBodyOf: ret can be reached from the loop's per-item instruction `in` without leaving the loop that contains it,
+// i.e. it is an exit from inside the loop body (as opposed to the return after the loop has finished).
+func inLoopBodyOf(f *ssa.Function, in ssa.Instruction, ret ssa.Instruction) bool {
+	// ret is inside the body iff it is dominated by a block from which `in` is reachable again only through the loop
+	// header; approximation that is exact for range/for loops: ret's block is dominated by a block of the cycle of `in`
+	// other than the loop header.
+	cyc := map[*ssa.BasicBlock]bool{}
+	for _, b := range f.Blocks {
+		if len(b.Instrs) == 0 {
+			continue
+		}
+		_, fwd := reachesAvoiding(f, in, func(z ssa.Instruction) bool { return z == b.Instrs[0] }, nil)
+		_, back := reachesAvoiding(f, b.Instrs[0], func(z ssa.Instruction) bool { return z == in }, nil)
+		if fwd && back {
+			cyc[b] = true
+		}
+	}
+	// the header: the cycle block that dominates all others of the cycle
+	var header *ssa.BasicBlock
+	for b := range cyc {
+		dom := true
+		for o := range cyc {
+			if !b.Dominates(o) {
+				dom = false
+			}
+		}
+		if dom {
+			header = b
+		}
+	}
+	for b := range cyc {
+		if b != header && b.Dominates(ret.Block()) {
+			return true
+		}
+	}
+	return false
 }
 
 // guardDisabledAt: the callee is a guard only under a boolean parameter, and this call passes the constant that switches
@@ -1177,6 +1279,9 @@ func checkC09(c *Ctx, r *Report, tier string) {
 	_ = tier
 	r.Rule("C09.R5", "each node is asked once: the worker opens the node's result stream at one site, outside any loop", 1)
 	streamOpenedOnce(c, r, "C09.R5")
+	r.Rule("C09.R6", "a node that cannot be searched fails the call: the workers report every Recv error other than io.EOF; the connection of a removed node is closed before RemoveNode returns (the per-dataset clients built on it are never evicted)", 2)
+	recvErrorsHandled(c, r, "C09.R6", "storage")
+	removedNodeConnectionClosedAtOnce(c, r, "C09.R6")
 	r.Rule("C09.R1", "every partition exactly once: the plan function appends each partition's id to exactly one bucket on every path of its loop, the bucket key being an element of that partition's own node list", 1)
 	r.Rule("C09.R2", "one worker per bucket, one message per worker: the spawn loop ranges over the plan, the collector loop is bounded by the size of the same collection, each worker sends exactly one message on every path", 4)
 	r.Rule("C09.R3", "a closed channel cannot masquerade as a message: a counted select with two or more message arms receives from no channel that the same function (or a goroutine it spawns) closes", 2)
@@ -1455,8 +1560,20 @@ func checkC09(c *Ctx, r *Report, tier string) {
 			if !isNilConst(rt.Results[1]) {
 				continue
 			}
+			merged := ssa.Value(nil)
 			if sl, ok := rt.Results[0].(*ssa.Slice); ok {
-				for _, o := range origins(sl.X, originOpt{}) {
+				merged = sl.X
+			} else if hc, ok := rt.Results[0].(*ssa.Call); ok && hc.Call.StaticCallee() != nil && modLocal(hc.Call.StaticCallee()) {
+				if okH, _ := sortCutHelper(c, hc.Call.StaticCallee(), srT); okH {
+					for _, a := range hc.Call.Args {
+						if namedOf(a.Type()) == srT {
+							merged = a
+						}
+					}
+				}
+			}
+			if merged != nil {
+				for _, o := range origins(merged, originOpt{}) {
 					if ap, ok := o.(*ssa.Call); ok && callID(&ap.Call).is("builtin", "", "append") {
 						// appended value is the received result
 						last := strip(ap.Call.Args[len(ap.Call.Args)-1])
